@@ -60,7 +60,7 @@ CONSTANTS CKeys, CVals,      \* keys / values
                              \* FALSE: a major compaction (exclusive)
 
 VARIABLES st, A, pc, loc, hid, sched,
-          pub                \* what the writer has published: 1 + seqno of its last finished write
+          pub                \* the snapshots the writer has published: 1 + seqno of every finished write
 
 cvars == <<st, A, pc, loc, hid, sched, pub>>
 
@@ -75,7 +75,7 @@ CInit ==
     /\ loc = [p \in Procs |-> [n |-> 0]]
     /\ hid = {}
     /\ sched = <<>>
-    /\ pub = 0
+    /\ pub = {}
 
 Sched(p, step, arg) == sched' = Append(sched, [p |-> p, step |-> step, arg |-> arg])
 
@@ -83,7 +83,7 @@ Sched(p, step, arg) == sched' = Append(sched, [p |-> p, step |-> step, arg |-> a
 W ==
     /\ ~SplitW
     /\ "w" \in Procs /\ pc["w"] = "W" /\ loc["w"].n < NWrites
-    /\ pub' = st.seq + 1
+    /\ pub' = pub \cup {st.seq + 1}
     /\ \E k \in CKeys, t \in {"V", "T"} :
          LET it == [k |-> k, t |-> t, v |-> IF t = "V" THEN ValAtC(st.seq) ELSE NoVal]
              e  == [k |-> k, s |-> st.seq, t |-> t, v |-> it.v] IN
@@ -111,7 +111,7 @@ W1 ==
          /\ st' = OpWriteAt(st, {it}, s)
          /\ A' = AWrite(A, {e})
          /\ loc' = [loc EXCEPT !["w"] = [n |-> @.n + 1]]
-         /\ pub' = s + 1
+         /\ pub' = pub \cup {s + 1}
          /\ Sched("w", "write", it)
     /\ pc' = [pc EXCEPT !["w"] = "W"]
     /\ UNCHANGED hid
@@ -290,10 +290,10 @@ ConcStructure   == PStructureSound(st)
 HiddenAtRest    == (OtherAtRest("c") /\ OtherAtRest("c2")) => hid = {}
 \* reads at the snapshot the writer has published (known finding C06-late-insert excluded)
 ConcPubReads ==
-    pub = 0 \/ \A k \in CKeys \ LateInsertKeys(st, pub) :
-                 Defined(A, k, pub) => ReadAt(st, k, pub) = Oracle(A, k, pub)
+    \A S \in pub : \A k \in CKeys \ LateInsertKeys(st, S) :
+        Defined(A, k, S) => ReadAt(st, k, S) = Oracle(A, k, S)
 \* witness (expected to be VIOLATED when SplitW): the known finding is reachable
-NoLateInsert == pub = 0 \/ LateInsertKeys(st, pub) = {}
+NoLateInsert == \A S \in pub : LateInsertKeys(st, S) = {}
 
 ViewConc == <<st, A, pc, loc, hid, pub>>
 =============================================================================
